@@ -9,6 +9,7 @@
 // values / documents, one token:  n | t | f | i<decimal> | s<hex> | [x,..] | {k:x,..}  keys i<decimal> | s<hex>
 // The catalogues (type#, class#) are the same lists as type_catalogue / class_catalogue in coq/ArchCodec.v.
 #include "common.h"
+#include <sstream>
 #include <algorithm>
 #include <functional>
 #include "bitserializer/bit_serializer.h"
@@ -225,7 +226,7 @@ static void to_xml(const Tree& t, const std::string& name, std::string& out) {
 static std::string encode(const std::string& arch, const Tree& doc) {
 	std::string out;
 	if (arch == "json") to_json(doc, out);
-	else if (arch == "mp") to_msgpack(doc, out);
+	else if (arch == "mp" || arch == "mps") to_msgpack(doc, out);
 	else if (arch == "csv") out = to_csv(doc);
 	else if (arch == "xml") { out = "<?xml version=\"1.0\"?>"; to_xml(doc, "value", out); }
 	else throw Syntax{"arch"};
@@ -444,6 +445,7 @@ template <bool Csv, bool Xml, class T>
 static void load_with(const std::string& arch, T& obj, const std::string& input, const SerializationOptions& o) {
 	if (arch == "json") LoadObject<JsonArchive>(obj, input, o);
 	else if (arch == "mp") LoadObject<MsgPackArchive>(obj, input, o);
+	else if (arch == "mps") { std::istringstream is(input); LoadObject<MsgPackArchive>(obj, is, o); }   // the same through the stream reader
 	else if (arch == "csv") {
 		if constexpr (Csv) LoadObject<CsvArchive>(obj, input, o);
 		else throw Syntax{"type not loadable from csv"};
